@@ -137,15 +137,16 @@ def run(prog: Program, rep: Report, tier: str) -> None:
     def accepted(N: T.Term, W: T.Term) -> List[T.Term]:
         n_minus = T.Lin.of(N) - 1
         forms = []
-        step = [("cmp", "==", n_minus.term(), W), ("cmp", "==", W, n_minus.term()), ("cmp", "==", N, (T.Lin.of(W) + 1).term()), ("cmp", "==", (T.Lin.of(W) + 1).term(), N)]
-        wrap_parts = [[("cmp", "==", N, c(mon)), ("cmp", "==", W, c(sun))], [("cmp", "==", W, c(sun)), ("cmp", "==", N, c(mon))]]
+        from ..interp import mkcmp
+        step = [mkcmp("==", n_minus.term(), W), mkcmp("==", N, (T.Lin.of(W) + 1).term())]
+        wrap_parts = [[mkcmp("==", N, c(mon)), mkcmp("==", W, c(sun))], [mkcmp("==", W, c(sun)), mkcmp("==", N, c(mon))]]
         for a in step:
             for wp in wrap_parts:
                 forms.append(("or", a, ("and",) + tuple(wp)))
                 forms.append(("or", ("and",) + tuple(wp), a))
         d = (T.Lin.of(N) - T.Lin.of(W)).term()
-        forms.append(("cmp", "==", ("app", "mod", d, c(7)), c(1)))
-        forms.append(("cmp", "==", ("app", "mod", (T.Lin.of(W) + 1).term(), c(7)), N))
+        forms.append(mkcmp("==", ("app", "mod", d, c(7)), c(1)))
+        forms.append(mkcmp("==", ("app", "mod", (T.Lin.of(W) + 1).term(), c(7)), N))
         return forms
 
     def day_terms(pcs: List[T.Term]) -> List[T.Term]:
@@ -294,8 +295,9 @@ def run(prog: Program, rep: Report, tier: str) -> None:
         else:
             # alternative shape: compare today with the last (largest) selected weekday
             last = ("elemof", sel, c(-1))
-            ge = ("cmp", ">=", W, last) in flat17(pcs_o) or ("cmp", "<=", last, W) in flat17(pcs_o)
-            lt = ("cmp", "<", W, last) in flat17(pcs_o) or ("cmp", ">", last, W) in flat17(pcs_o)
+            from ..interp import mkcmp as _mk
+            ge = _mk(">=", W, last) in flat17(pcs_o)
+            lt = _mk("<", W, last) in flat17(pcs_o)
             if ge:
                 okp = any(n == ("elemof", sel, c(0)) for n in Ns)
             elif lt:
